@@ -1,4 +1,5 @@
 """C07 - Backtest results up to any date do not depend on later market data (pairs of complete runs)."""
+import copy
 import datetime
 import itertools
 import shutil
@@ -173,6 +174,8 @@ def item_eval(item):
         handler = run_world(None, market, d0)      # the full world keeps its own directory
         base = [sl.run_session(cfg, handler) for cfg in cfgs]
         mk.clear_caches()
+        pairs = [(cfgs[k], cfgs[k + 1]) for k in range(0, min(len(cfgs) - 1, 4), 2)]
+        pair_cuts = set(cuts[2::4])
         for cut_s in cuts:
             cut = datetime.date.fromisoformat(cut_s)
             m2 = rewrite(market, cut, how)
@@ -206,6 +209,26 @@ def item_eval(item):
             mk.clear_caches()
             if len(viols) > 5:
                 break
+            # two sessions in a row on ONE handler (a strategy, then its benchmark - the data handler is shared): what
+            # the second one does up to T must not depend on data after T either, whatever the first one looked up
+            if cut_s in pair_cuts and not viols:
+                for ca, cb in pairs:
+                    outs = []
+                    for hdl in (handler, handler2):
+                        h = copy.deepcopy(hdl)
+                        sl.run_session(ca, h, fresh=False)
+                        outs.append(sl.run_session(cb, h, fresh=False))
+                    n += 1
+                    a, b = prefix(outs[0], cut), prefix(outs[1], cut)
+                    if a != b:
+                        keys = [k for k in a if a[k] != b[k]]
+                        viols.append({'clause': 'C07.depends_on_future_data', 'signature': 'second-session:' + keys[0],
+                                      'detail': {'market': name, 'cut': cut_s, 'rewrite': how, 'differs_in': keys,
+                                                 'second_session_on_a_shared_handler': cb['rebalance'],
+                                                 'first_session': ca['rebalance']},
+                                      'case': {'market': name, 'cut': cut_s, 'rewrite': how, 'cfg': cb, 'after_cfg': ca}})
+                        break
+                mk.clear_caches()
     finally:
         mk.clear_caches()
         shutil.rmtree(d, ignore_errors=True)
@@ -258,11 +281,21 @@ def replay(case):
     try:
         market = base_market(case['market'])
         h = run_world(None, market, d)
-        w = sl.run_session(case['cfg'], h)
-        mk.clear_caches()
         cut = datetime.date.fromisoformat(case['cut'])
+        if case.get('after_cfg'):
+            hh = copy.deepcopy(h)
+            sl.run_session(case['after_cfg'], hh, fresh=False)
+            w = sl.run_session(case['cfg'], hh, fresh=False)
+        else:
+            w = sl.run_session(case['cfg'], h)
+        mk.clear_caches()
         h2 = run_world(None, rewrite(market, cut, case['rewrite']), d2)
-        w2 = sl.run_session(case['cfg'], h2)
+        if case.get('after_cfg'):
+            hh2 = copy.deepcopy(h2)
+            sl.run_session(case['after_cfg'], hh2, fresh=False)
+            w2 = sl.run_session(case['cfg'], hh2, fresh=False)
+        else:
+            w2 = sl.run_session(case['cfg'], h2)
         a, b = prefix(w, cut), prefix(w2, cut)
         if a != b:
             keys = [k for k in a if a[k] != b[k]]
